@@ -459,7 +459,13 @@ class X86TableGen extends core.TableGen {
 
   // Get instructions (dbInsts) having the same name as understood by AsmJit.
   query(name) {
+    // AVX10.2 is not supported except for EVEX forms of instructions that AsmJit already provides in VEX form. These
+    // must be known, because the assembler selects EVEX automatically (high registers, 512-bit vectors, {k}, ...).
+    const avx10_2_evex = /^(vmpsadbw|vpdp(bss|bsu|buu|wsu|wus|wuu)ds?|vsm4key4|vsm4rnds4)$/;
+
     return x86isa.query({ name: name, filter: function(inst) {
+      if (inst.ext.AVX10_2 && inst.prefix === "EVEX" && avx10_2_evex.test(inst.name))
+        return true;
       return !inst.ext.APX_F && !inst.ext.AVX10_1 && !inst.ext.AVX10_2;
     }});
   }
